@@ -17,7 +17,7 @@ from native import bridge
 from native.bounded._common import FLAGS, Checker
 from native.refinterp import ParamStore, domains_of, eval_circuit, integral_circuit
 
-BOUND = ("region graphs {RandomBinaryTree(4|5, reps 1..2), LinearTree(4), FullyFactorized(3), QuadTree((1,2,2),2|4), QuadGraph((1,2,2)), "
+BOUND = ("region graphs {RandomBinaryTree(4|5, reps 1..2), LinearTree(4), FullyFactorized(3|1), RandomBinaryTree(3, depth 0), QuadTree((1,2,2),2|4), QuadGraph((1,2,2)), "
          "PoonDomingos((1,2,2),1)} x {cp, cp-t, tucker} x {categorical(3 states), binomial(2), gaussian} x {mixing, dense} with 2 input / 2 sum "
          "units, 1..2 classes; templates image_data((1,2,2)) with 256 categories (Z through integrate only), tabular_data(random-binary-tree, 3 "
          "features), hmm(orderings of 3 variables, 1..2 latent states), fully_factorized(3), cp/tucker probabilistic (shape (2,3,2), rank 1..3); "
@@ -33,6 +33,8 @@ def _rgs():
     yield "RandomBinaryTree(5,reps=2)", RandomBinaryTree(5, num_repetitions=2, seed=2)
     yield "LinearTree(4)", LinearTree(4)
     yield "FullyFactorized(3)", FullyFactorized(3)
+    yield "RandomBinaryTree(3,depth=0)", RandomBinaryTree(3, depth=0, seed=3)       # the root region is itself an input region
+    yield "FullyFactorized(1)", FullyFactorized(1)
     yield "QuadTree((1,2,2),2)", QuadTree((1, 2, 2), num_patch_splits=2)
     yield "QuadTree((1,2,2),4)", QuadTree((1, 2, 2), num_patch_splits=4)
     yield "QuadGraph((1,2,2))", QuadGraph((1, 2, 2))
